@@ -632,6 +632,22 @@ theorem wfProto_ids {env : Env} {p : ProtoDef} (h : wfProto env p = true) :
   simp only [wfProto, Bool.and_eq_true] at h
   exact ⟨h.1.1.1, h.1.1.2⟩
 
+/-- what the translator's kernel-checked obligations establish for a translated definition file:
+    unique structure names, parents and structure-typed fields resolving to *earlier* definitions (acyclic),
+    unique protocol names, per protocol unique method ids and names, every structure reference of a method
+    resolving, `noresponse` protocols without results -/
+def WFEnv (env : Env) : Prop := wfStructs env = true ∧ wfProtos env = true
+
+theorem wfEnv_methods {env : Env} (h : WFEnv env) :
+    ∀ p ∈ env.protos, ∀ m ∈ p.methods, findMethodById p m.id = some m ∧ findMethod p m.name = some m := by
+  intro p hp m hm
+  have hw : wfProto env p = true := by
+    have := h.2
+    simp only [wfProtos, Bool.and_eq_true, List.all_eq_true] at this
+    exact this.2 p hp
+  exact ⟨find_of_nodup MethodDef.id p.methods m (wfProto_ids hw).1 hm,
+         find_of_nodup MethodDef.name p.methods m (wfProto_ids hw).2 hm⟩
+
 /-! ## gates -/
 
 /-- names of the attributes a `save`/`load` touches, in order -/
